@@ -3,6 +3,7 @@ from __future__ import annotations
 
 import itertools
 import random
+import re
 from typing import Any, Callable
 
 from . import core, gen_marker as GM, gen_version as GV, marker_common as MC
@@ -310,6 +311,13 @@ def dump(kind: str, o: Any) -> str:
     return repr(o)
 
 
+def text_of(o: Any) -> str:
+    try:
+        return str(o)
+    except Exception:  # noqa: BLE001
+        return "<unprintable>"
+
+
 def reparse(kind: str, o: Any) -> Any:
     """the object obtained by parsing the object's own text (None: the type has no text form to re-read)"""
     if kind in ("version", "constraint", "generic", "extra", "marker"):
@@ -462,6 +470,13 @@ def oracle(ctx: core.Ctx, kind: str, pool: list[Obj], stream: str) -> tuple[list
             continue
         except Exception as e:  # noqa: BLE001
             ctx.count(f"{kind}:reparse-raises:{type(e).__name__}")   # printing/re-reading is C15/C13/C10's subject
+            # ... except where this property's own clause is plain: a non-empty version constraint obtained from the parser or
+            # the algebra has a text the parser reads back (`<empty>` is the one printed form without a spelling; a raw
+            # spelling ending in a separator is C15's listed class)
+            if kind == "constraint":
+                t = text_of(a.obj)
+                if t != "<empty>" and not re.search(r"[-_.]\s*($|,|\|)", t):
+                    violate(ctx, kind, "reparse-raises", f"str({a.spec!r}) = {t!r} is not read back by parse_constraint: {type(e).__name__}", [a])
             continue
         if b is None:
             continue
@@ -549,6 +564,9 @@ CONSTRAINT_FAMILIES: dict[str, list[str]] = {
     "!=1.5": ["!=1.5", "<1.5 || >1.5", "!= 1.5.0", "<>1.5", "*\x01d\x011.5", "<1.5\x01u\x01>1.5", ">1.5 || <1.5", "!=1.5,!=1.5", "!=1.5\x01i\x01*"],
     "1.*": ["1.*", "==1.*", ">=1.dev0,<2.dev0", "1.x", "==1.*.*"],
     "!=1.*": ["!=1.*", "<1.dev0 || >=2.dev0", "*\x01d\x011.*"],
+    # a wildcard of a release with an epoch: the printer writes the epoch back (`==1!2.*`)
+    "1!2.*": ["==1!2.*", "1!2.*", ">=1!2.dev0,<1!3.dev0", "==1!2.*\x01i\x01==1!2.*", "==1!2.*\x01u\x01==1!2.*"],
+    "!=1!2.*": ["!=1!2.*", "<1!2.dev0 || >=1!3.dev0", "*\x01d\x01==1!2.*"],
     "~=1.2": ["~=1.2", ">=1.2,<2", ">=1.2,<2.0", "^1.2", "~=1.2.0\x01u\x01~=1.2", ">=1.2 <2"],
     "~=1.2.3": ["~=1.2.3", ">=1.2.3,<1.3", "~1.2.3", ">=1.2.3,<1.3.0", "~=1.2.3\x01i\x01>=1"],
     "union": ["<1 || >=2", ">=2 || <1", "<1.0||>=2.0", "<1 | >=2", "<1\x01u\x01>=2", "*\x01d\x01>=1,<2", "<1 || >=2 || >=3", "<0.5 || <1 || >=2",
